@@ -315,4 +315,214 @@ theorem defect_bounds (eps : ℝ) (g : Vec3 ℝ) (R0 : Quat ℝ) (fr : Nat → F
       rw [hq] at t1
       nlinarith [mul_le_mul_of_nonneg_left he hdd, mul_le_mul_of_nonneg_left h1 hd]
 
+/-! ### several cuts: accumulated measures over the whole stream -/
+
+/-- `Σ_{i<j} |dt_{m+i}|` -/
+noncomputable def tAbs (fr : Nat → Frame ℝ) (m : Nat) : Nat → ℝ
+  | 0 => 0
+  | j+1 => tAbs fr m j + |(fr (m + j)).dt|
+
+theorem sumA_nonneg (eps : ℝ) (g : Vec3 ℝ) (R0 : Quat ℝ) (fr : Nat → Frame ℝ) (m j : Nat) : 0 ≤ sumA eps g R0 fr m j := by
+  induction j with
+  | zero => simp [sumA]
+  | succ n ih => simp only [sumA]; have := mul_nonneg (abs_nonneg (fr (m + n)).dt) (Vec3.norm_nonneg (aSeq eps g R0 fr (m + n))); linarith
+
+theorem tAbs_nonneg (fr : Nat → Frame ℝ) (m j : Nat) : 0 ≤ tAbs fr m j := by
+  induction j with
+  | zero => simp [tAbs]
+  | succ n ih => simp only [tAbs]; have := abs_nonneg (fr (m + n)).dt; linarith
+
+theorem sumP_nonneg (eps : ℝ) (g : Vec3 ℝ) (R0 : Quat ℝ) (fr : Nat → Frame ℝ) (m j : Nat) : 0 ≤ sumP eps g R0 fr m j := by
+  induction j with
+  | zero => simp [sumP]
+  | succ n ih =>
+    simp only [sumP]
+    have h1 := mul_nonneg (abs_nonneg (fr (m + n)).dt) (sumA_nonneg eps g R0 fr m n)
+    have h2 := mul_nonneg (mul_nonneg (by norm_num : (0:ℝ) ≤ 1 / 2) (mul_self_nonneg (fr (m + n)).dt))
+      (Vec3.norm_nonneg (aSeq eps g R0 fr (m + n)))
+    linarith
+
+/-- the measures of the whole stream split at a cut -/
+theorem sumA_add (eps : ℝ) (g : Vec3 ℝ) (R0 : Quat ℝ) (fr : Nat → Frame ℝ) (m j : Nat) :
+    sumA eps g R0 fr 0 (m + j) = sumA eps g R0 fr 0 m + sumA eps g R0 fr m j := by
+  induction j with
+  | zero => simp [sumA]
+  | succ n ih =>
+    rw [show m + (n+1) = (m+n)+1 from rfl]
+    simp only [sumA, ih, Nat.zero_add]
+    ring
+
+theorem sumP_add (eps : ℝ) (g : Vec3 ℝ) (R0 : Quat ℝ) (fr : Nat → Frame ℝ) (m j : Nat) :
+    sumP eps g R0 fr 0 (m + j) = sumP eps g R0 fr 0 m + sumP eps g R0 fr m j + sumA eps g R0 fr 0 m * tAbs fr m j := by
+  induction j with
+  | zero => simp [sumP, tAbs]
+  | succ n ih =>
+    rw [show m + (n+1) = (m+n)+1 from rfl]
+    simp only [sumP, tAbs, ih, Nat.zero_add, sumA_add eps g R0 fr m n]
+    ring
+
+theorem preSeq_t_abs (eps : ℝ) (g : Vec3 ℝ) (R0 : Quat ℝ) (fr : Nat → Frame ℝ) (m j : Nat) :
+    |(preSeq eps g R0 (fun i => fr (m + i)) j).t| ≤ tAbs fr m j := by
+  induction j with
+  | zero => simp [preSeq, Pre.init, tAbs]
+  | succ n ih =>
+    rw [preSeq_t_succ]
+    simp only [tAbs]
+    exact le_trans (abs_add_le _ _) (add_le_add ih (le_refl _))
+
+/-- same rotation, perturbed start velocity / position: the outputs shift by `δv` and `δp + t·δv` -/
+theorem compose_perturbed (p p' : Vec3 ℝ) (R : Quat ℝ) (v v' : Vec3 ℝ) (s : Pre ℝ) :
+    (compose p R v s).rot = (compose p' R v' s).rot ∧
+    (compose p R v s).vel.sub (compose p' R v' s).vel = v.sub v' ∧
+    (compose p R v s).pos.sub (compose p' R v' s).pos = (p.sub p').add ((v.sub v').smul s.t) := by
+  simp only [compose]
+  refine ⟨trivial, ?_, ?_⟩ <;> (ext <;> simp only [Vec3.add, Vec3.sub, Vec3.smul] <;> ring)
+
+/-- one more chunk: from a carried state whose rotation is exact and whose velocity / position are off by at most
+`K·c·TA`, `K·c·TP`, every output of the next call is off by at most `K·(c+1)·TA`, `K·(c+1)·TP` -/
+theorem step_defect (eps : ℝ) (g : Vec3 ℝ) (st S : State ℝ) (fr : Nat → Frame ℝ) (N' x : Nat) (K c : ℝ) (hK0 : 0 ≤ K) (hc : 0 ≤ c)
+    (hK : ∀ j, j < x → (eDef eps g st.rot fr N' j).norm ≤ K * (aSeq eps g st.rot fr (N' + j)).norm)
+    (hrot : S.rot = (compose st.pos st.rot st.vel (preSeq eps g st.rot fr N')).rot)
+    (hv : ((compose st.pos st.rot st.vel (preSeq eps g st.rot fr N')).vel.sub S.vel).norm ≤ K * c * sumA eps g st.rot fr 0 N')
+    (hp : ((compose st.pos st.rot st.vel (preSeq eps g st.rot fr N')).pos.sub S.pos).norm ≤ K * c * sumP eps g st.rot fr 0 N')
+    (j : Nat) (hj : j ≤ x) :
+    let C := compose S.pos S.rot S.vel (preSeq eps g S.rot (fun i => fr (N' + i)) j)
+    let O := compose st.pos st.rot st.vel (preSeq eps g st.rot fr (N' + j))
+    O.rot = C.rot ∧ (O.vel.sub C.vel).norm ≤ K * (c + 1) * sumA eps g st.rot fr 0 (N' + j) ∧
+      (O.pos.sub C.pos).norm ≤ K * (c + 1) * sumP eps g st.rot fr 0 (N' + j) := by
+  intro C O
+  obtain ⟨g1, g2, g3⟩ := compose_shift_general eps g st.pos st.rot st.vel fr N' j
+  obtain ⟨b1, b2⟩ := defect_bounds eps g st.rot fr N' x K hK j hj
+  set O' := compose st.pos st.rot st.vel (preSeq eps g st.rot fr N') with hO'
+  obtain ⟨q1, q2, q3⟩ := compose_perturbed O'.pos S.pos O'.rot O'.vel S.vel (preSeq eps g O'.rot (fun i => fr (N' + i)) j)
+  have hC : C = compose S.pos O'.rot S.vel (preSeq eps g O'.rot (fun i => fr (N' + i)) j) := by
+    show compose S.pos S.rot S.vel (preSeq eps g S.rot (fun i => fr (N' + i)) j) = _
+    rw [hrot]
+  have hA := sumA_add eps g st.rot fr N' j
+  have hP := sumP_add eps g st.rot fr N' j
+  have nA := sumA_nonneg eps g st.rot fr N' j
+  have nA0 := sumA_nonneg eps g st.rot fr 0 N'
+  have nP := sumP_nonneg eps g st.rot fr N' j
+  have nP0 := sumP_nonneg eps g st.rot fr 0 N'
+  have nT := tAbs_nonneg fr N' j
+  have ht := preSeq_t_abs eps g O'.rot fr N' j
+  refine ⟨?_, ?_, ?_⟩
+  · show O.rot = C.rot
+    rw [hC]; exact g1.trans q1
+  · have e : O.vel.sub C.vel = (defV eps g st.rot fr N' j).add (O'.vel.sub S.vel) := by
+      show (compose st.pos st.rot st.vel (preSeq eps g st.rot fr (N' + j))).vel.sub C.vel = _
+      rw [g2, hC, ← q2]
+      ext <;> simp only [Vec3.add, Vec3.sub] <;> ring
+    rw [e, hA]
+    have t := vnorm_add_le (defV eps g st.rot fr N' j) (O'.vel.sub S.vel)
+    nlinarith [mul_nonneg hK0 nA, mul_nonneg hK0 nA0, mul_nonneg (mul_nonneg hK0 hc) nA]
+  · have e : O.pos.sub C.pos = ((defP eps g st.rot fr N' j).add (O'.pos.sub S.pos)).add
+        ((O'.vel.sub S.vel).smul (preSeq eps g O'.rot (fun i => fr (N' + i)) j).t) := by
+      show (compose st.pos st.rot st.vel (preSeq eps g st.rot fr (N' + j))).pos.sub C.pos = _
+      rw [g3, hC]
+      have := q3
+      ext <;> simp only [Vec3.add, Vec3.sub, Vec3.smul] at this ⊢ <;>
+        (first | (have hx := congrArg Vec3.x this; simp only [Vec3.add, Vec3.sub, Vec3.smul] at hx; linarith)
+               | (have hy := congrArg Vec3.y this; simp only [Vec3.add, Vec3.sub, Vec3.smul] at hy; linarith)
+               | (have hz := congrArg Vec3.z this; simp only [Vec3.add, Vec3.sub, Vec3.smul] at hz; linarith))
+    rw [e, hP]
+    have t1 := vnorm_add_le ((defP eps g st.rot fr N' j).add (O'.pos.sub S.pos))
+      ((O'.vel.sub S.vel).smul (preSeq eps g O'.rot (fun i => fr (N' + i)) j).t)
+    have t2 := vnorm_add_le (defP eps g st.rot fr N' j) (O'.pos.sub S.pos)
+    rw [vnorm_smul] at t1
+    have t3 : |(preSeq eps g O'.rot (fun i => fr (N' + i)) j).t| * (O'.vel.sub S.vel).norm
+        ≤ tAbs fr N' j * (K * c * sumA eps g st.rot fr 0 N') :=
+      mul_le_mul ht hv (Vec3.norm_nonneg _) nT
+    nlinarith [mul_nonneg hK0 nP, mul_nonneg hK0 nP0, mul_nonneg (mul_nonneg hK0 hc) nP,
+      mul_nonneg (mul_nonneg hK0 nA0) nT, mul_nonneg (mul_nonneg (mul_nonneg hK0 hc) nA0) nT]
+
+/-- carried state after feeding the chunks `rs.reverse` to one object (the list is written LAST chunk first) -/
+noncomputable def stAfterR (cfg : Cfg ℝ) (st : State ℝ) (fr : Nat → Frame ℝ) : List Nat → State ℝ
+  | [] => st
+  | m :: rs => (call cfg (stAfterR cfg st fr rs) none (fun i => fr (rs.sum + i)) m).st
+
+/-- `stAfterR` is the state the model's `runChunks` ends in -/
+theorem runChunks_append (cfg : Cfg ℝ) (ms : List Nat) : ∀ (st : State ℝ) (fr : Nat → Frame ℝ) (x : Nat),
+    runChunks cfg st fr (ms ++ [x]) = runChunks cfg st fr ms ++
+      [call cfg (((runChunks cfg st fr ms).getLast?.map (·.st)).getD st) none (fun i => fr (ms.sum + i)) x] := by
+  induction ms with
+  | nil => intro st fr x; simp [runChunks]
+  | cons m ms ih =>
+    intro st fr x
+    simp only [List.cons_append, runChunks, ih, List.sum_cons]
+    have hf : (fun i => (fun j => fr (m + j)) (ms.sum + i)) = fun i => fr (m + ms.sum + i) := by
+      funext i; simp only [Nat.add_assoc]
+    rw [hf]
+    congr 2
+    cases h : (runChunks cfg (call cfg st none fr m).st (fun j => fr (m + j)) ms).getLast? with
+    | none =>
+      have : ms = [] := by
+        cases ms with
+        | nil => rfl
+        | cons a b => simp [runChunks] at h
+      subst this
+      simp [runChunks]
+    | some r =>
+      have hne : runChunks cfg (call cfg st none fr m).st (fun j => fr (m + j)) ms ≠ [] := by
+        intro h0; rw [h0] at h; simp at h
+      rw [List.getLast?_cons_of_ne_nil hne, h]
+      rfl
+
+theorem stAfterR_eq (cfg : Cfg ℝ) (st : State ℝ) (fr : Nat → Frame ℝ) (rs : List Nat) :
+    stAfterR cfg st fr rs = ((runChunks cfg st fr rs.reverse).getLast?.map (·.st)).getD st := by
+  induction rs with
+  | nil => simp [stAfterR, runChunks]
+  | cons x rs ih =>
+    simp only [stAfterR, List.reverse_cons, runChunks_append, List.getLast?_append, List.getLast?_singleton,
+      List.sum_reverse, ih]
+    simp
+
+/-- invariant over any number of cuts: after feeding the chunks `rs.reverse` the carried rotation is exact and the carried
+velocity / position are within `K·(#chunks)·ΣA`, `K·(#chunks)·ΣP` of the one-call state -/
+theorem stAfterR_bound (cfg : Cfg ℝ) (hr : cfg.reset = false) (hp : cfg.propCov = true) (st : State ℝ) (fr : Nat → Frame ℝ)
+    (N : Nat) (K : ℝ) (hK0 : 0 ≤ K)
+    (hK : ∀ m j, m + j < N → (eDef cfg.eps cfg.g st.rot fr m j).norm ≤ K * (aSeq cfg.eps cfg.g st.rot fr (m + j)).norm)
+    (rs : List Nat) :
+    (∀ m ∈ rs, 1 ≤ m) → rs.sum ≤ N →
+      let S := stAfterR cfg st fr rs
+      let O := compose st.pos st.rot st.vel (preSeq cfg.eps cfg.g st.rot fr rs.sum)
+      S.rot = O.rot ∧ (O.vel.sub S.vel).norm ≤ K * (rs.length : ℝ) * sumA cfg.eps cfg.g st.rot fr 0 rs.sum ∧
+        (O.pos.sub S.pos).norm ≤ K * (rs.length : ℝ) * sumP cfg.eps cfg.g st.rot fr 0 rs.sum := by
+  induction rs with
+  | nil =>
+    intro _ _
+    simp only [stAfterR, List.sum_nil, preSeq, compose, Pre.init, Quat.mul_one', Quat.act_zero, List.length_nil,
+      Nat.cast_zero, mul_zero, zero_mul]
+    refine ⟨trivial, ?_, ?_⟩
+    · have : (st.vel.add Vec3.zero).sub st.vel = (Vec3.zero : Vec3 ℝ) := by ext <;> lie_unfold <;> ring
+      rw [this, vnorm_zero]
+    · have : (((st.pos.add Vec3.zero).add (st.vel.smul (k 0 : ℝ))).sub st.pos) = (Vec3.zero : Vec3 ℝ) := by
+        ext <;> lie_unfold <;> ring
+      rw [this, vnorm_zero]
+  | cons m rs ih =>
+    intro hms hN
+    have hm : 1 ≤ m := hms m (by simp)
+    simp only [List.sum_cons] at hN
+    obtain ⟨i1, i2, i3⟩ := ih (fun y hy => hms y (by simp [hy])) (by omega)
+    have hstep := step_defect cfg.eps cfg.g st (stAfterR cfg st fr rs) fr rs.sum m K (rs.length : ℝ) hK0
+      (Nat.cast_nonneg _) (fun j hj => hK rs.sum j (by omega)) i1 i2 i3 m (le_refl m)
+    -- the new carried state is the last frame of the call
+    have hlast := call_out_eq cfg (stAfterR cfg st fr rs) (fun i => fr (rs.sum + i)) m (m - 1) (by omega)
+    have e : m - 1 + 1 = m := by omega
+    rw [e] at hlast
+    have hst : (stAfterR cfg st fr (m :: rs)).rot = (compose (stAfterR cfg st fr rs).pos (stAfterR cfg st fr rs).rot
+          (stAfterR cfg st fr rs).vel (preSeq cfg.eps cfg.g (stAfterR cfg st fr rs).rot (fun i => fr (rs.sum + i)) m)).rot ∧
+        (stAfterR cfg st fr (m :: rs)).vel = (compose (stAfterR cfg st fr rs).pos (stAfterR cfg st fr rs).rot
+          (stAfterR cfg st fr rs).vel (preSeq cfg.eps cfg.g (stAfterR cfg st fr rs).rot (fun i => fr (rs.sum + i)) m)).vel ∧
+        (stAfterR cfg st fr (m :: rs)).pos = (compose (stAfterR cfg st fr rs).pos (stAfterR cfg st fr rs).rot
+          (stAfterR cfg st fr rs).vel (preSeq cfg.eps cfg.g (stAfterR cfg st fr rs).rot (fun i => fr (rs.sum + i)) m)).pos := by
+      simp only [stAfterR]
+      rw [call_st cfg _ _ m hp hr]
+      simp only [hlast, and_self]
+    simp only [List.sum_cons, List.length_cons, Nat.cast_add, Nat.cast_one]
+    rw [Nat.add_comm m rs.sum, hst.1, hst.2.1, hst.2.2]
+    obtain ⟨s1, s2, s3⟩ := hstep
+    exact ⟨s1.symm, s2, s3⟩
+
+
 end PP.Imu
